@@ -735,6 +735,28 @@ func (x *LogicalOperation) GetErrors() (errMessage string) {
 	return strings.Join(errMessages, "; ")
 }
 
+// errorsForParent is what a group contributes to the error of the group it is nested in: its own
+// error, which already lists what was found in the groups nested in it, and the errors of its paths.
+// (GetErrors would list the nested groups a second time, and the text would double with every level.)
+func (x *LogicalOperation) errorsForParent() (errMessage string) {
+	errMessages := []string{}
+	if x.Error != nil && *x.Error != "" {
+		errMessages = append(errMessages, *x.Error)
+	}
+
+	for _, p := range x.Parts {
+		if _, isGroup := p.(*LogicalOperation); isGroup {
+			continue
+		}
+
+		if errs := p.GetErrors(); p.HasErrors() && errs != "" {
+			errMessages = append(errMessages, errs)
+		}
+	}
+
+	return strings.Join(errMessages, "; ")
+}
+
 func (x *LogicalOperation) ReturnType() InputOrOutput {
 	return inputOrOutput(PT_Boolean, IOOT_Single)
 }
